@@ -387,6 +387,6 @@ def _atom_mode(hist, c):
     and held (also across clear()), or made by another engine"""
     import hashlib
     k = int(hashlib.md5(repr(hist).encode('utf8', 'backslashreplace')).hexdigest(), 16) % 10
-    mode = 'fresh' if k < 5 else ('held' if k < 8 else 'other')
+    mode = 'fresh' if k < 4 else ('held' if k < 6 else ('other' if k < 8 else 'mixed'))
     c['atoms_' + mode] = 1
     return mode
